@@ -4,7 +4,7 @@ import os
 import vf
 from checks import common
 
-QUICK_BUILDS = [vf.DEFAULT_BUILD, vf.SECOND_BUILD]
+QUICK_BUILDS = [vf.DEFAULT_BUILD, "blake2s_160_lsb-stone6"]      # C05 quick covers the two 248-bit variants
 THOROUGH_BUILDS = ["keccak_160_lsb-stone5", "keccak_248_lsb-stone5", "blake2s_160_lsb-stone6", "blake2s_248_lsb-stone6"]
 
 
